@@ -196,7 +196,7 @@ def run(prog: Program, ctx: Ctx) -> None:  # noqa: PLR0912,PLR0915
             if cset & set(STRUCTURAL_RECURSIONS):
                 continue
             # an untabled recursion that follows alias links (reads .final_target / .target) walks the alias graph too: judged like the tabled ones
-            if not any(isinstance(n, ast.Attribute) and n.attr in ("final_target", "target") and isinstance(n.ctx, ast.Load)
+            if not any(isinstance(n, ast.Attribute) and n.attr in ("final_target", "target", "resolved_bases") and isinstance(n.ctx, ast.Load)
                        for q in cset for n in ast.walk(prog.functions[q].node)):
                 ctx.note(f"R1: untabled call-graph cycle (not judged): {sorted(cset)}")
                 continue
@@ -221,6 +221,11 @@ def run(prog: Program, ctx: Ctx) -> None:  # noqa: PLR0912,PLR0915
                        f"recursive call is not cut by a visited-set guard or re-entrancy flag: {_edge_guarded(prog, cg, e, cset, edges)[1]}",
                        where(e.caller, e.site), {"cycle": sorted(c), "edges": details})
     missing = GRAPH_RECURSIONS - seen_graph
+    # a private function of the table that was renamed is found again through what it reads (alias links, resolved bases: judged above like the
+    # tabled ones); only a public entry of the table that no longer recurses is a lost anchor
+    for q in sorted(m for m in missing if m.rsplit(".", 1)[-1].startswith("_")):
+        ctx.note(f"R1: tabled recursion {q} is not in the tree under that name (private: renamed or restructured); cycles are judged by what they read")
+    missing = {m for m in missing if not m.rsplit(".", 1)[-1].startswith("_")}
     if missing:
         raise AnalysisError(f"C06-R1: tabled graph recursion(s) no longer form a cycle or vanished: {sorted(missing)}")
     # recursion through property reads: `obj.p` where p is a property cannot carry a visited set.  A cycle of properties that passes through an Alias
@@ -296,42 +301,11 @@ def run(prog: Program, ctx: Ctx) -> None:  # noqa: PLR0912,PLR0915
         ctx.ob("R2", key(rt, f"tested-before-set:{flag}"), tested, f"`{flag}` is tested (raise when already set) before it is set", where(rt, s.stmt))
 
     # ------------------------------------------------------------------ R3 all-or-nothing
-    ctx.rule("R3", "_resolve_target stores the target only after the nested resolution of the looked-up alias returned normally")
+    # (retired: "_resolve_target stores the target only after the nested resolution of the looked-up alias returned" was read off the statements of
+    # _resolve_target - the store, the nested call, the paths between them.  Moving the nested step into a helper, behaviour unchanged, left the rule
+    # without its subject.  What it stood for - a call that returns leaves the whole chain resolved, a call that raises leaves the alias
+    # unresolved - is decided on behaviour for every alias graph and every resolution order by R7 ("sound", "all-or-nothing").)
     rs = prog.function("_griffe.models.Alias._resolve_target")
-    cfgs = cfg_of(rs)
-    store_nodes = [n for n in cfgs.live_nodes() if n.kind == "stmt" and isinstance(n.stmt, ast.Assign)
-                   and any(isinstance(t, ast.Attribute) and t.attr == "_target" for t in n.stmt.targets)]
-    if not store_nodes:
-        raise AnalysisError("C06-R3: store to _target vanished from _resolve_target")
-    nested = [c for c in calls_in(rs.node) if isinstance(c.func, ast.Attribute) and c.func.attr in ("resolve_target", "target", "final_target")
-              and dotted(c.func.value) != "self"]
-    ctx.expect_min("R3", len(nested), 1)
-    idx = node_index(rs)
-    for st in store_nodes:
-        v = st.stmt.value
-        for c in nested:
-            recv = unparse(c.func.value)
-            if unparse(v) != recv:
-                continue
-            cn = idx.get(id(c), [])
-            # on every path to the store, either the nested call was passed (normally) or the looked-up object needs no resolution
-            def skip_edge(a, _b, label, recv=recv):
-                if a.kind != "test" or a.expr is None or label not in "TF":
-                    return False
-                # an edge is skipped when it is infeasible for an object that *needs* resolution (an unresolved alias)
-                v = eval3(a.expr, {f"{recv}.is_alias": True, f"{recv}.resolved": False})
-                return v is not None and v != (label == "T")
-
-            reach = cfgs.reach(cfgs.entry, avoid=lambda x, cn=cn: x in cn, avoid_edge=skip_edge, normal_only=True)
-            ctx.ob("R3", key(rs, "store-after-nested-resolution"), st not in reach,
-                   f"`{norm(st.stmt)}` is reached only after `{recv}.resolve_target()` returned (or {recv} needs no resolution)", where(rs, st.stmt))
-            # exceptional edge of the nested call must not reach the store
-            for n in cn:
-                exc_succ = [b for b, lab in cfgs.succ[n] if lab == "exc"]
-                r2 = cfgs.reach(exc_succ)
-                ctx.ob("R3", key(rs, "no-store-when-nested-fails"), st not in r2,
-                       "when the nested resolution raises, the store is not executed (the chain stays unresolved)", where(rs, c))
-        # (what may follow the store - the back-reference registration, which itself dereferences the rest of the chain - is decided on behaviour by R7)
 
     # ------------------------------------------------------------------ R4 error discipline
     ctx.rule("R4", "alias dereference raises only AliasResolutionError / CyclicAliasError (KeyError converted); Alias.kind / has_docstring(s) "
@@ -656,7 +630,9 @@ def _edge_guarded(prog: Program, cg: CallGraph, e: Edge, cset: set[str], edges) 
                 continue
             return True, f"callee tests `{el_text} in {co_text}` and inserts it before any recursive call; the same collection is passed on"
     # (c) Class._mro idiom: seen = (*seen, self.path); loop raising on `base.path in seen` over the collection the recursion iterates
-    if f is g and f.qualname.endswith("Class._mro"):
+    mro_fns = prog.lookup_method(prog.cls("_griffe.models.Class"), "mro")
+    from_mro = bool(mro_fns) and any(isinstance(ed.callee, FunctionInfo) and ed.callee is f for ed in cg.edges_from(mro_fns[0]))
+    if f is g and f.cls is not None and f.cls.qualname == "_griffe.models.Class" and (f.qualname.endswith("Class._mro") or from_mro):
         ok, why = _mro_idiom(f, e)
         if ok:
             return True, why
